@@ -11,7 +11,7 @@ from ..common import pmap_proc, tlc_retry, write_ndjson, sh, SPEC
 LEVEL = "model_checking"
 OFFM, ONM = "*INDENT-OFF*", "*INDENT-ON*"
 LEXT = {"C": ".c", "CPP": ".cpp", "PAWN": ".pawn", "JAVA": ".java", "CS": ".cs", "D": ".d"}
-RAW = ["\t x  =  [ (  {  %d   ", "  @@ $$ garbage `  %d", "    indented   raw %d\t", "if(a){b;}else   {c ;}  // %d  ", "\"unterminated %d",
+RAW = ["/* foo %d */ x(); /* then the enable text: *INDENT-ON* */", "\t x  =  [ (  {  %d   ", "  @@ $$ garbage `  %d", "    indented   raw %d\t", "if(a){b;}else   {c ;}  // %d  ", "\"unterminated %d",
        "   a=b+c  ;    /* in region %d */   ", "\t\t\ttabs\tinside\t%d", "#define  X%d   ( 1+2 )", "}  ) ] %d", "   'q %d", "  café  %d  "]
 
 
@@ -81,7 +81,9 @@ def machine(lines):
         midline = OFFM in s and not s.startswith(("/*", "//", "#")) and "/*" in s and s.find("/*") < s.find(OFFM) and ONM not in s
         sw_off = (not off) and (midline or (OFFM in s and s.startswith(("/*", "//")) and not (ONM in s and s.find(ONM) > s.find(OFFM)))
                                 or s.replace("# ", "#") == "#pragma asm" or s.replace("# ", "#") == "#asm")
-        sw_on = off and ((s.startswith(("/*", "//")) and ONM in s) or (ONM in s and "/*" in s[:s.find(ONM)] and "*/" in s[s.find(ONM):] and s.rstrip().endswith("*/")) or (s.startswith("#pragma") and s.split()[1:2] == ["endasm"]) or s.startswith("#endasm"))
+        # the enabling text must stand in the comment that starts the line (a '/* */' comment: before its first closer)
+        on_in_first = ONM in s and (s.startswith("//") or (s.startswith("/*") and ("*/" not in s or s.find(ONM) < s.find("*/"))))
+        sw_on = off and (on_in_first or (s.startswith("#pragma") and s.split()[1:2] == ["endasm"]) or s.startswith("#endasm"))
         inreg = off and not sw_on
         for k in range(i, j + 1):
             res.append((off, inreg))
@@ -112,9 +114,7 @@ def regions(lines):
         prev_line = l
         if inreg:
             cur.append("" if l.strip(" \t") == "" else l)
-        elif off and cur is not None and ONM in l and not l.lstrip(" \t").startswith(("/*", "//", "#")) and "/*" in l[:l.find(ONM)]:
-            # the enabling marker comment behind region text on the same line (a deleted line break): the text in front is the region's
-            cur.append(l)
+
     # the file ends with the line whose marker comment stands behind code: the region is the rest of that line
     if lines and not prev_off and OFFM in prev_line and ONM not in prev_line and not prev_line.lstrip(" \t").startswith(("/*", "//", "#")) \
             and "/*" in prev_line and prev_line.find("/*") < prev_line.find(OFFM) and "*/" in prev_line[prev_line.find(OFFM):]:
@@ -125,6 +125,23 @@ def regions(lines):
 
 def outside(lines):
     return [l for l, (off, inreg) in zip(lines, machine(lines)) if not inreg]
+
+
+def unjoin(out_lines, rin):
+    """an output line '<region line><blanks>/* ..ON.. */' (the line break in front of the enabling marker comment was deleted, an edge
+    line break) is read as the two lines it was; only when the text in front IS a line of a region of the input"""
+    known = {y.rstrip(" \t"): y for r in rin for y in r if y != ""}
+    res = []
+    for l in out_lines:
+        if ONM in l and "/*" in l[:l.find(ONM)] and not l.lstrip(" \t").startswith(("/*", "//")):
+            cut = l.rfind("/*", 0, l.find(ONM))
+            pre = l[:cut].rstrip(" \t")
+            if pre in known and ONM not in known[pre]:
+                res.append(known[pre])
+                res.append(l[cut:])
+                continue
+        res.append(l)
+    return res
 
 
 def marker_lines(lines):
@@ -216,7 +233,9 @@ def _job(a):
     ev = {"e": "File", "id": rid, "rc": rc, "kinds": kinds, "regs": [], "nregs_out": 0, "ign": [], "ign_expected": []}
     if rc == 0:
         out = obs.decode(so)
-        rin, rout = regions(split(text)), regions(split(out))
+        rin = regions(split(text))
+        out_lines = unjoin(split(out), rin)
+        rout = regions(out_lines)
         if rin != rout and marker_lines(split(text)) != marker_lines(split(out)):
             loc = locate(rin, split(out))
             if loc is not None:
@@ -256,7 +275,8 @@ def _job(a):
         rc2, so2, se2 = sh([unc, "-c", cfg, "-q", "-l", lang, "-f", src2], cwd=tmp, timeout=20)
         os.unlink(src2)
         if rc2 == 0:
-            o1, o2 = outside(split(obs.decode(so))), outside(split(obs.decode(so2)))
+            o1 = outside(unjoin(split(obs.decode(so)), rin))
+            o2 = outside(unjoin(split(obs.decode(so2)), regions(split(text2))))
             if reshaped is not None:
                 l1, l2 = split(obs.decode(so)), split(obs.decode(so2))
                 loc2 = locate(regions(split(text2)), l2)
